@@ -39,7 +39,9 @@ m = {
     "engines": [{"name": "tpv", "path": "harness/", "serves_properties": [c["property_id"] for c in checks],
                  "kind_free_text": "Rust harness linked against /repo/crates/* (feature verif-hooks): workload generators, reference models and runtime monitors; one sub-command per property"},
                 {"name": "check", "path": "check", "serves_properties": [c["property_id"] for c in checks],
-                 "kind_free_text": "python3 supervisor: rebuild, shard fan-out, crash attribution via case journal, known-finding matching, evidence"}],
+                 "kind_free_text": "python3 supervisor: rebuild, shard fan-out, crash attribution via case journal, known-finding matching, evidence"},
+                {"name": "tpv-miri", "path": "harness_miri/", "serves_properties": ["C12"],
+                 "kind_free_text": "second tiny Rust crate interpreted by Miri (cargo +nightly miri run, -Zmiri-disable-stacked-borrows): the C12 lexer / parser monitors plus a full rowan cursor walk on small inputs; auxiliary pass of the thorough tier, never the decider"}],
     "checks": checks,
     "notes": "All checks are runtime monitors over executions of the real code (see DESIGN.md). Exit 3 = inconclusive (too little observed), exit 2 = build/harness error; neither prints VIOLATION.",
     "not_applicable": [{"property_id": p["id"], "reason": NOT_APPLICABLE.get(p["id"], "check not implemented yet (planned, see DESIGN.md section 3)")}
